@@ -101,3 +101,145 @@ RECIPES4 = [
     ("C01", "neutral", [], E2, LOOP2_OLD, LOOP2_OUT, "SolveExp2.tsolve: columns written through ufunc(out=view) and np.copyto(view, value)"),
     ("C01", "break", ["C01-R9"], E2, LOOP2_OLD, LOOP2_OUT.replace("out=D[:, i + 1]", "out=D[:, i]"), "SolveExp2.tsolve: out= view of the current column instead of the next"),
 ]
+
+
+# ---- the helper's own refactorings of pass 4 (each verified bit-for-bit on the solvers' outputs and with pyyeti/tests/test_ode.py in a scratch copy)
+CPLX_OLD = "        Fe = np.exp(lam * h)\n        Ae = np.empty_like(Fe)\n        Be = np.empty_like(Fe)\n"
+CPLX_ALIAS = ("        import numpy as xp\n        from numpy import exp as _exp\n\n"
+              "        Fe = _exp(lam * h)\n        Ae = xp.empty_like(Fe)\n        Be = xp.empty_like(Fe)\n")
+CPLX_TABLE = "        Fe = np.exp(lam * h)\n        Ae, Be = np.empty((2,) + Fe.shape, dtype=Fe.dtype)\n"
+
+UNDER_GATHER_OLD = """            w = np.sqrt(w2[pvundr])
+            cs = np.cos(w * h)
+            sn = np.sin(w * h)
+            beta = C[pvundr]
+            ex = np.exp(-beta * h)
+            _wo2 = wo2[pvundr]
+            _w2 = w2[pvundr]
+            _k = k[pvundr]
+
+            # for displacement:
+            F[pvundr] = ex * (cs + (beta / w) * sn)
+            G[pvundr] = (ex * sn) / w
+"""
+UNDER_GATHER_NEW = """            iundr = np.flatnonzero(pvundr)
+            w = np.sqrt(np.compress(pvundr, w2))
+            cs = np.cos(w * h)
+            sn = np.sin(w * h)
+            beta = C.compress(pvundr)
+            ex = np.exp(-beta * h)
+            _wo2 = np.extract(pvundr, wo2)
+            _w2 = np.take(w2, iundr)
+            _k = k.take(iundr)
+
+            # for displacement:
+            np.put(F, iundr, ex * (cs + (beta / w) * sn))
+            G.put(iundr, (ex * sn) / w)
+"""
+UNDER_INPLACE = """            w = np.sqrt(w2[pvundr])
+            cs = np.cos(w * h)
+            sn = np.sin(w * h)
+            beta = C[pvundr]
+            ex = np.exp(-beta * h)
+            _wo2 = wo2[pvundr]
+            _w2 = w2[pvundr]
+            _k = k[pvundr]
+
+            # for displacement:
+            tmp = beta / w
+            tmp *= sn
+            tmp += cs
+            tmp *= ex
+            F[pvundr] = tmp
+            G[pvundr] = ex * sn
+            G[pvundr] /= w
+"""
+ALLOC_OLD = """    F = pvrb.astype(float)
+    G = h * F
+    if m is None:
+        A = (h * h / 3) * F
+        Ap = (h / 2) * F
+    else:
+        A = (h * h / 3) * F / m
+        Ap = (h / 2) * F / m
+    B = A / 2
+    Fp = np.zeros(n, float)
+    Gp = F.copy()
+    Bp = Ap.copy()
+"""
+ALLOC_INPLACE = """    F = pvrb.astype(float)
+    G = F.copy()
+    G *= h
+    A = F * (h * h / 3)
+    Ap = np.multiply(F, h / 2)
+    if m is not None:
+        A /= m
+        np.divide(Ap, m, out=Ap)
+    B = A.copy()
+    B /= 2
+    Fp = np.zeros(n, float)
+    Gp = F.copy()
+    Bp = Ap.copy()
+"""
+ALLOC_TABLE = """    F, G, A, B, Fp, Gp, Ap, Bp = np.empty((8, n))
+    F[:] = pvrb
+    G[:] = h * F
+    if m is None:
+        A[...] = (h * h / 3) * F
+        Ap[:] = (h / 2) * F
+    else:
+        A[...] = (h * h / 3) * F / m
+        Ap[:] = (h / 2) * F / m
+    np.copyto(B, A / 2)
+    Fp.fill(0.0)
+    Gp[:] = F[:]
+    Bp[...] = np.array(Ap[...])
+"""
+E1_LOOP = "            for j in range(1, nt):\n                d0 = d[:, j] = E @ d0 + PQF[:, j - 1]"
+E2_LOOP = "                for i in range(nt - 1):\n                    d0 = D[:, i]"
+
+RECIPES4 += [
+    ("C01", "neutral", [], S, CPLX_OLD, CPLX_ALIAS, "own O1: the library under the module's / function's import aliases (xp.empty_like, _exp)"),
+    ("C01", "break", ["C01-R1b"], S, CPLX_OLD, CPLX_ALIAS.replace("_exp(lam * h)", "_exp(-lam * h)"), "own O1 broken: aliased exp of -lambda h"),
+    ("C01", "neutral", [], U, UNDER_GATHER_OLD, UNDER_GATHER_NEW, "own O2: gather by np.compress / .compress / np.extract / np.take / .take, scatter by np.put / .put with positions"),
+    ("C01", "break", ["C01-R1"], U, UNDER_GATHER_OLD, UNDER_GATHER_NEW.replace("_w2 = np.take(w2, iundr)", "_w2 = np.take(wo2, iundr)"), "own O2 broken: w2 gathered from wo2"),
+    ("C01", "break", ["C01-R7"], U, UNDER_GATHER_OLD, UNDER_GATHER_NEW.replace("beta = C.compress(pvundr)", "beta = C.compress(pvel)"), "own O2 broken: beta gathered over all elastic modes"),
+    ("C01", "break", ["C01-R7"], U, UNDER_GATHER_OLD, UNDER_GATHER_NEW.replace("G.put(iundr,", "G.put(pvundr,"), "own O2 broken: .put with the boolean mask as positions"),
+    ("C01", "neutral", [], U, UNDER_GATHER_OLD, UNDER_INPLACE, "own O3: the under-damped F built by in-place updates of a temporary; G by a store followed by an in-place division of the selection"),
+    ("C01", "break", ["C01-R1"], U, UNDER_GATHER_OLD, UNDER_INPLACE.replace("tmp += cs", "tmp -= cs"), "own O3 broken: the cosine term subtracted in place"),
+    ("C01", "neutral", [], U, ALLOC_OLD, ALLOC_INPLACE, "own O3: the rigid-body defaults by copies updated in place (G *= h, A /= m, np.divide(out=))"),
+    ("C01", "break", ["C01-R1"], U, ALLOC_OLD, ALLOC_INPLACE.replace("    B = A.copy()\n    B /= 2", "    B = A.view()\n    B /= 2"), "own O3 broken: B is a view of A, halved in place (A is halved too)"),
+    ("C01", "neutral", [], U, ALLOC_OLD, ALLOC_TABLE, "own O5: the eight coefficient vectors as row views of one np.empty table, filled through full-slice stores, np.copyto, .fill"),
+    ("C01", "break", ["C01-R1"], U, ALLOC_OLD, ALLOC_TABLE.replace("    Gp[:] = F[:]", "    Gp = F[:]"), "own O5 broken: Gp bound to a view of F instead of being filled from it"),
+    ("C01", "break", ["C01-R1"], U, ALLOC_OLD, ALLOC_TABLE.replace("    Bp[...] = np.array(Ap[...])", "    Bp = np.asarray(Ap[...])"), "own O5 broken: Bp bound to Ap through np.asarray of a view"),
+    ("C01", "neutral", [], S, CPLX_OLD, CPLX_TABLE, "own O5: Ae, Be as the rows of one np.empty table"),
+    ("C01", "neutral", [], E1, E1_LOOP, E1_LOOP.replace("range(1, nt)", "np.arange(1, nt)"), "own O4: loop index from np.arange"),
+    ("C01", "break", ["C01-R8"], E1, E1_LOOP, E1_LOOP.replace("range(1, nt)", "np.arange(2, nt)"), "own O4 broken: np.arange starts one step late"),
+    ("C01", "neutral", [], E2, E2_LOOP, E2_LOOP.replace("range(nt - 1)", "__import__('itertools').islice(__import__('itertools').count(), nt - 1)") if False else
+     E2_LOOP.replace("for i in range(nt - 1):", "for (i,) in np.ndindex(nt - 1):"), "own O4: loop index from np.ndindex"),
+    ("C01", "break", ["C01-R9"], E2, E2_LOOP, E2_LOOP.replace("for i in range(nt - 1):", "for (i,) in np.ndindex(nt - 2):"), "own O4 broken: np.ndindex one step short"),
+    ("C01", "neutral", [], E2, E2_LOOP, "                import itertools\n\n" + E2_LOOP.replace("range(nt - 1)", "itertools.islice(itertools.count(), nt - 1)"),
+     "own O4: loop index from itertools.islice(itertools.count(), n)"),
+    ("C01", "break", ["C01-R9"], E2, E2_LOOP, "                import itertools\n\n" + E2_LOOP.replace("range(nt - 1)", "itertools.islice(itertools.count(1), nt - 1)"),
+     "own O4 broken: the counter starts at 1"),
+    ("C01", "neutral", [], E2, E2_LOOP, "                import itertools\n\n" + E2_LOOP.replace("for i in range(nt - 1):", "for i, _ in zip(itertools.count(), PQF.T):"),
+     "own O4: loop index from zip(itertools.count(), columns)"),
+]
+
+
+# ---- C01-R12 (round-4 seed I): the rigid-body set handed to get_su_coef
+GSC = "                self.pc = get_su_coef(self.m, self.b, self.k, h, self._rb)"
+RECIPES4 += [
+    ("C01", "break", ["C01-R12"], S, GSC, "                rbmodes = self._rb if self.rbsize else None\n                self.pc = get_su_coef(self.m, self.b, self.k, h, rbmodes)",
+     "round-4 seed I: an empty rigid-body set handed over as None (= auto-detect by k/m in get_su_coef)"),
+    ("C01", "break", ["C01-R12"], S, GSC, "                self.pc = get_su_coef(self.m, self.b, self.k, h)", "sibling of seed I: rbmodes left to its default None"),
+    ("C01", "break", ["C01-R12"], S, GSC, "                self.pc = get_su_coef(k=self.k, b=self.b, m=self.m, h=h, rbmodes=(None if not self.rbsize else self._rb))",
+     "sibling of seed I: keywords, inverted conditional"),
+    ("C01", "break", ["C01-R12"], S, GSC, "                self.pc = get_su_coef(self.m, self.b, self.k, h, None if self.rbsize else self._rb)",
+     "sibling of seed I: None when the solver HAS rigid-body modes"),
+    ("C01", "neutral", [], S, GSC, "                self.pc = get_su_coef(self.m, self.b, self.k, h, rbmodes=self._rb)", "rbmodes by keyword"),
+    ("C01", "neutral", [], S, GSC, "                self.pc = get_su_coef(self.m, self.b, self.k, h, self._rb if self.rbsize else np.array([], int))",
+     "an empty rigid-body set handed over as an empty index array"),
+    ("C01", "neutral", [], S, GSC, "                rb_in_k = self._rb\n                args = (self.m, self.b, self.k, h, rb_in_k)\n                self.pc = get_su_coef(*args)",
+     "arguments through a tuple and a local"),
+]
